@@ -864,9 +864,12 @@ class Step(Node):
         `duration`, when `None`, deliberately leaves the recycled step's existing duration
         (its previous measurement, if any) untouched, unlike a brand-new step's default.
 
-        `_holding` is always reset to 0: a recycled step cannot still be inside a `hold()`
-        block from a previous run, since that block would have released it (or failed)
-        before the step could be recycled.
+        `_holding` is reset to 0, unless the step is running:
+        a step that is not running cannot still be inside a `hold()` block from a previous run,
+        since that block would have released it (or failed) before the step could be recycled.
+        A running step, however, can be detached and recycled by its creator
+        (a plan that is run again redefines the steps it created) between its own `hold()`
+        and `release()` calls, and then still needs its counter.
 
         A FAILED step is the one state that is not carried over: it is made PENDING so the
         recycled step is retried. A failed step is never skippable anyway (it has no stored
@@ -874,7 +877,9 @@ class Step(Node):
         within the same build, while `report_unbuilt` still counts it as a failure.
         """
         self.db.execute(
-            "UPDATE step SET need = ?, shell = ?, _holding = 0 WHERE node = ?",
+            "UPDATE step SET need = ?, shell = ?, "
+            f"_holding = CASE WHEN state = {StepState.RUNNING.value} THEN _holding ELSE 0 END "
+            "WHERE node = ?",
             (need.value, int(shell), self.i),
         )
         if self.get_state() == StepState.FAILED:
